@@ -252,6 +252,52 @@ def run(ctx: Ctx):
                                "tau_energy": float(E_direct[k_]), "events_differing": int(max(len(bad), len(bad_hi)))})
         except Exception as ex:  # noqa
             ctx.violation("Taus.__call__", "stage-raises", f"{type(ex).__name__}: {str(ex)[:120]}", {"version": v})
+        # ---- the same events in another shape / memory layout (a 2-d scan grid, its transposed view, Fortran order): element
+        # [i, j] of the result is the inverse transform of element [i, j] of the inputs
+        le2 = rng.uniform(gE[0], gE[-1], (7, 11)); b2 = rng.uniform(bmin, bmax, (7, 11)); u2 = rng.uniform(0.01, 0.99, (7, 11))
+        ref2 = grid_cdf_sampler(g)(le2.ravel().copy(), b2.ravel().copy(), u2.ravel().copy()).reshape(7, 11)
+        for nm_, tf in (("C-ordered 2-d", lambda a: a.copy()), ("transposed view", lambda a: np.ascontiguousarray(a.T).T), ("Fortran order", np.asfortranarray),
+                        ("mixed: one operand transposed view", None)):
+            ctx.case(("layout", v, nm_), None); ctx.count("sampler_memory_layouts")
+            try:
+                if tf is None:
+                    z2 = grid_cdf_sampler(g)(le2.copy(), np.ascontiguousarray(b2.T).T, np.asfortranarray(u2))
+                else:
+                    z2 = grid_cdf_sampler(g)(tf(le2), tf(b2), tf(u2))
+                ok_ = np.shape(z2) == (7, 11) and np.allclose(np.asarray(z2), ref2, rtol=1e-12, atol=0)
+                err = None
+            except Exception as ex:  # noqa
+                ok_, err = False, f"{type(ex).__name__}: {str(ex)[:100]}"
+            if not ok_:
+                ctx.violation("grid_cdf_sampler", "depends-on-the-memory-layout",
+                              f"a (7, 11) grid of events given as {nm_} arrays: element [i, j] of the result is not the inverse transform of element [i, j] of the inputs" + (f" ({err})" if err else ""),
+                              {"version": v, "layout": nm_, "log_e_nu[0,1]": float(le2[0, 1]), "beta[0,1]": float(b2[0, 1]), "u[0,1]": float(u2[0, 1]),
+                               "expected[0,1]": float(ref2[0, 1]), "got[0,1]": (float(np.asarray(z2)[0, 1]) if err is None and np.shape(z2) == (7, 11) else None)})
+                break
+        # ---- single-energy batches next to (not on) a table energy, and just outside the table: no snapping to the node
+        for node in (gE[0], gE[len(gE) // 2], gE[-1]):
+            for rel in (1e-6, -1e-6, 4e-6, -8e-6):
+                e_ = float(node * (1 + rel))
+                bb = rng.uniform(bmin, bmax, 40); uu = rng.uniform(0.05, 0.95, 40)
+                ctx.case(("near-node-mono", v, e_), None); ctx.count("mono_energy_next_to_a_node")
+                inside = gE[0] <= e_ <= gE[-1]
+                try:
+                    Em = tau.tau_energy(bb.copy(), np.full(40, e_), uu.copy())
+                    if not inside:
+                        ctx.violation("Taus.tau_energy", "energy-out-of-range-accepted", "a single-energy batch just outside the table is not rejected",
+                                      {"version": v, "log_e_nu": repr(e_), "table_end": repr(float(node))})
+                        continue
+                    rows_ = oracle_rows(tau, np.full(40, e_), bb)
+                    Fz = np.array([F_of(rows_[i], frac, Em[i] / 10 ** e_) for i in range(40)])
+                    ok_u = uu <= rows_[:, -1]
+                    if np.any(np.abs(Fz - uu)[ok_u] > 1e-8):
+                        k_ = int(np.argmax(np.where(ok_u, np.abs(Fz - uu), 0)))
+                        ctx.violation("Taus.tau_energy", "F(z)!=u:energy-next-to-a-node",
+                                      f"single-energy batch at log E = {e_!r} (a table energy is {float(node)!r}): F(z)-u = {Fz[k_] - uu[k_]:.3e}",
+                                      {"version": v, "log_e_nu": repr(e_), "beta": float(bb[k_]), "u": float(uu[k_]), "tauEnergy": float(Em[k_])})
+                except ValueError:
+                    if inside:
+                        ctx.violation("Taus.tau_energy", "energy-in-range-rejected", f"log E = {e_!r} inside the table is rejected", {"version": v})
         # ---- batch sizes around the nditer buffer: identical to per-chunk evaluation
         for N in ((1, 8191, 8192, 8193, 16385) if ctx.thorough else (1, 8193)):
             le = rng.uniform(gE[0], gE[-1], N); b = rng.uniform(bmin, bmax, N); u = rng.uniform(0.01, 0.99, N)
